@@ -1,6 +1,6 @@
 (* C14 — upload slots are bounded and follow the choking policy. *)
 From Coq Require Import Permutation.
-From Rdest Require Import Base Consts Wire Manager MgrProofs Handler.
+From Rdest Require Import Base Consts Wire Manager MgrProofs Handler Stats HStats Corr.Stats StatsProofs HStatsProofs.
 Open Scope N_scope.
 Definition acts_of_outcome (o : outcome) : list action := match o with HCont _ a | HEnd _ a _ | HPanic a => a end.
 
@@ -90,6 +90,29 @@ Proof. vm_compute. split; reflexivity. Qed.
 (* "at most ten peers unchoked plus at most one optimistic unchoke": the code's constants, pinned *)
 Example C14_slots_pinned : MAX_UNCHOKED = 10 /\ MAX_OPTIMISTIC = 1 /\ MAX_OPTIMISTIC_ROUNDS = 3. Proof. repeat split; reflexivity. Qed.
 
+(* What the "measured rate" measures (HStats.v: the statistics call sites of the connection task; Stats.v: the counters).
+   Counted as uploaded are exactly the payload bytes of the piece messages written; a block counts as downloaded exactly
+   when it answers an outstanding request of the piece being assembled, any other one is refused, counted as unexpected
+   and changes nothing; and over a connection's whole life every report is the mean over the last two 10 s intervals of
+   these byte counts (clamped to u32) with the unexpected blocks of the current interval. *)
+Theorem C14_rate_uploads_counted : forall s ev acts, sum_up (stats_ops s ev acts) = uploaded_bytes acts.
+Proof. exact uploads_counted. Qed.
+Theorem C14_rate_block_counted : forall s i b blk acts,
+  sum_down (stats_ops s (EFrame (Piece i b blk)) acts) =
+  if piece_reaches_handler s && match h_rx s with Some r => is_requested r i b blk | None => false end then len blk else 0.
+Proof. exact block_counted. Qed.
+Theorem C14_rate_refused_block : forall sha1 cf disk ovf s i b blk rep,
+  piece_reaches_handler s = true ->
+  match h_rx s with Some r => is_requested r i b blk | None => false end = false ->
+  hstep sha1 cf disk ovf s (EFrame (Piece i b blk)) rep = HCont (set_ka s 0) [] /\
+  stats_ops s (EFrame (Piece i b blk)) [] = [SUnexpected].
+Proof. exact refused_block_changes_nothing. Qed.
+Theorem C14_rate_reports_exact : forall sha1 cf disk ovf s0 tr,
+  fits (trace_ops sha1 cf disk ovf s0 tr) 0 0 0 ->
+  srun_with true ovf stats_new (trace_ops sha1 cf disk ovf s0 tr) [] =
+  Ok (expected (trace_ops sha1 cf disk ovf s0 tr) None None 0 0 0).
+Proof. exact reports_are_interval_means. Qed.
+
 Print Assumptions C14_bitfield_bound.
 Print Assumptions C14_rotation_bound.
 Print Assumptions C14_slots_interested.
@@ -97,3 +120,7 @@ Print Assumptions C14_rate_order.
 Print Assumptions C14_map_exact.
 Print Assumptions C14_messages_follow_map.
 Print Assumptions C14_timer_wrapper.
+Print Assumptions C14_rate_uploads_counted.
+Print Assumptions C14_rate_block_counted.
+Print Assumptions C14_rate_refused_block.
+Print Assumptions C14_rate_reports_exact.
